@@ -137,7 +137,7 @@ theorem sim_port (c : Ctx) (W : c.Wf) (m : M) (u : Url) (hI : Inv c m u) (hs : m
   unfold bPort
   simp only [Nat.add_zero]
   upsimp
-  refine R.sat_bind (findIf_spec c.a c.first c.last _ hl _ p h1 (by omega)) ?_
+  refine R.sat_bind (findIf_specV c.a c.first c.last _ hl _ p h1 (by omega)) ?_
   intro eod ⟨e1, e2, e3, e4⟩
   have e2' : eod ≤ c.last := by omega
   obtain ⟨hT, hD⟩ := Dl_scan_pos c.e c.a W.hu isDigit isDigit_ascii c.last hl (eod - p) p eod (by omega) e2'
@@ -184,7 +184,7 @@ theorem sim_port (c : Ctx) (W : c.Wf) (m : M) (u : Url) (hI : Inv c m u) (hs : m
       · split
         · rename_i hpe
           upsimp
-          refine R.sat_bind (findIf_spec c.a c.first c.last _ hl _ p h1 (by omega)) ?_
+          refine R.sat_bind (findIf_specV c.a c.first c.last _ hl _ p h1 (by omega)) ?_
           intro p' ⟨z1, z2, z3, z4⟩
           have hstrip : stripLeadingZeros (slice c.a p eod) = slice c.a p' eod :=
             strip_slice c.a eod (by omega) (p' - p) p p' (by omega) (by omega)
